@@ -78,6 +78,7 @@ type World struct {
 	preDump   map[string]string
 	postDump  map[string]string
 	trackFx   bool
+	kernels   map[string]*neotest.Contract
 }
 
 func multisigAccounts(privs []*keys.PrivateKey, m int) []*wallet.Account {
